@@ -195,6 +195,16 @@ func genScenario(r *common.Rand, flow string) (s ordgen.Scenario, tune int) {
 	}
 	s.Ord = ordgen.U{Txid: common.Hex(r.Bytes(32)), Vout: uint32(r.Intn(3)), Sats: ordSats, Script: common.Hex(ordScript), Key: seller}
 	s.SellerScript, s.Buyer, s.Dummy, s.Change = p2pkhHex(r), p2pkhHex(r), p2pkhHex(r), p2pkhHex(r)
+	// wallets commonly reuse one address: the same script for several of the buyer's roles must not change
+	// where any satoshi goes
+	switch r.Intn(6) {
+	case 0:
+		s.Change = s.Dummy
+	case 1:
+		s.Change, s.Dummy = s.Buyer, s.Buyer
+	case 2:
+		s.Change = s.Buyer
+	}
 	if r.Chance(10) && flow != "bid2d" { // the buyer may receive the ordinal on a longer script
 		s.Buyer = common.Hex(feegen.Inscription(r.Bytes(20), []byte("text/plain"), r.Bytes(5)))
 	}
